@@ -4,7 +4,7 @@
 From Coq Require Import List ZArith QArith Qcanon Bool Arith Permutation.
 From Dimod Require Import Base.Util Model.Poly Model.HPoly Model.Samples Model.Comb Model.Solve
   Proofs.CombFacts Proofs.CombGray Proofs.PolyFacts Proofs.HPolyFacts Proofs.SamplesFacts
-  Proofs.SolveEnum Proofs.SolveComp.
+  Model.Feas Proofs.FeasFacts Proofs.SolveEnum Proofs.SolveComp Proofs.SolveSamplers.
 Import ListNotations.
 Local Open Scope nat_scope.
 
@@ -227,6 +227,110 @@ Proof. exact reindex_row_value. Qed.
 Print Assumptions C07_reindex_row_value.
 
 (* ================================================================== *)
+(* the stochastic samplers: everything but the search *)
+
+(* RandomSampler / IdentitySampler / any search: for ANY rows, the reported energies are the
+   submitted problem's energies of those rows, whatever the (sorted) column order *)
+Theorem C07_search_agnostic_energy :
+  forall (p : poly) (vars ls ls' : list label) (rows : list (list Qc)),
+    mentions_only p vars -> (forall v, In v vars -> In v ls') ->
+    let out := reorder_columns ls' (from_samples_bqm (energy p) vars ls rows) in
+    r_energies out = map (fun row => energy p (row_sample ls row)) rows /\
+    honest (energy p) out.
+Proof. exact search_agnostic_energy. Qed.
+Print Assumptions C07_search_agnostic_energy.
+
+(* SimulatedAnnealingSampler: whatever spin rows the annealer ends in *)
+Theorem C07_sa_search_agnostic_energy :
+  forall (binary : bool) (vars : list label) (p : poly) (ls : list label) (rows : list (list Qc)),
+    NoDup vars -> mentions_only p vars ->
+    (forall v, In v vars -> In v ls) -> (forall row, In row rows -> length row = length ls) ->
+    honest (energy p) (sa_sample binary vars p ls rows).
+Proof. exact sa_search_agnostic_energy. Qed.
+Print Assumptions C07_sa_search_agnostic_energy.
+
+Theorem C07_null_sample_spec :
+  forall (e : sample -> Qc) (vars : list label),
+    honest e (null_sample vars) /\ r_labels (null_sample vars) = vars /\ r_rows (null_sample vars) = [].
+Proof. exact null_sample_spec. Qed.
+Print Assumptions C07_null_sample_spec.
+
+(* IdentitySampler: energies are the problem's; rejected exactly in the documented cases;
+   'none' / 'tile' return exactly the given states (read i = state i mod len); 'random' keeps
+   the given states first *)
+Theorem C07_identity_honest :
+  forall g num_reads (e : sample -> Qc) vars ls conv init extra r,
+    identity_sample g num_reads e vars ls conv init extra = Some r -> honest e r.
+Proof. exact identity_honest. Qed.
+Print Assumptions C07_identity_honest.
+
+Theorem C07_identity_rejects :
+  forall g num_reads (e : sample -> Qc) vars ls conv init extra,
+    identity_sample g num_reads e vars ls conv init extra = None <->
+    same_label_set vars ls = false \/ reads num_reads (length init) < 1 \/
+    (g = GNone /\ length init < reads num_reads (length init)) \/ (g = GTile /\ length init < 1).
+Proof. exact identity_rejects. Qed.
+Print Assumptions C07_identity_rejects.
+
+Theorem C07_identity_none_tile_exact :
+  forall g num_reads (e : sample -> Qc) vars ls conv init extra r d,
+    g <> GRandom ->
+    identity_sample g num_reads e vars ls conv init extra = Some r ->
+    let n := reads num_reads (length init) in
+    length (r_rows r) = n /\
+    forall i, i < n -> nth i (r_rows r) d = nth (i mod length init) (map conv init) d.
+Proof. exact identity_none_tile_exact. Qed.
+Print Assumptions C07_identity_none_tile_exact.
+
+Theorem C07_identity_random_prefix :
+  forall num_reads (e : sample -> Qc) vars ls conv init extra r,
+    identity_sample GRandom num_reads e vars ls conv init extra = Some r ->
+    r_rows r = firstn (reads num_reads (length init)) (map conv init ++ extra).
+Proof. exact identity_random_prefix. Qed.
+Print Assumptions C07_identity_random_prefix.
+
+(* ================================================================== *)
+(* StructureComposite / TrackingComposite *)
+
+Theorem C07_structured_spec :
+  forall nodes edges vars quad,
+    structured nodes edges vars quad = true <->
+    (forall v, In v vars -> In v nodes) /\
+    (forall u v, In (u, v) quad -> In (u, v) edges \/ In (v, u) edges).
+Proof. exact structured_spec. Qed.
+Print Assumptions C07_structured_spec.
+
+Theorem C07_structure_sample_spec :
+  forall (I : Type) nodes edges vars quad (child : I -> result) (bqm : I),
+    (structured nodes edges vars quad = true ->
+       structure_sample nodes edges vars quad child bqm = Some (child bqm)) /\
+    (structured nodes edges vars quad = false ->
+       forall child' : I -> result, structure_sample nodes edges vars quad child' bqm = None).
+Proof. exact @structure_sample_spec. Qed.
+Print Assumptions C07_structure_sample_spec.
+
+Theorem C07_tracking_sample_spec :
+  forall (I : Type) (t : tracker I) (child : I -> result) (inp : I),
+    snd (tracking_sample t child inp) = child inp /\
+    t_inputs (fst (tracking_sample t child inp)) = t_inputs t ++ [inp] /\
+    t_outputs (fst (tracking_sample t child inp)) = t_outputs t ++ [child inp].
+Proof. exact @tracking_sample_spec. Qed.
+Print Assumptions C07_tracking_sample_spec.
+
+(* ================================================================== *)
+(* ExactCQMSolver: the is_feasible column is the hard-constraint definition (C08's `feasible`)
+   evaluated on the enumeration of this file *)
+Theorem C07_exact_cqm_feasible_column :
+  forall (atol rtol : Qc) (m : cqm) order sizes doms garb,
+    let cases := cqm_case_samples order sizes doms in
+    v_is_feasible (exact_cqm_solver atol rtol m cases garb) = map (feasible atol rtol m) cases /\
+    length (v_is_feasible (exact_cqm_solver atol rtol m cases garb)) = length (all_cases_cqm sizes doms) /\
+    (forall s, feasible atol rtol m s = true <->
+               forall k, In k (m_cons m) -> is_hard k = true -> satisfied atol rtol k s = true).
+Proof. exact exact_cqm_feasible_column. Qed.
+Print Assumptions C07_exact_cqm_feasible_column.
+
+(* ================================================================== *)
 (* examples: hypotheses are satisfiable on non-trivial data *)
 
 Example C07_ex_mesh : mesh [[1; 2]; [10; 20]; [100; 200]] =
@@ -255,3 +359,11 @@ Example C07_ex_polyfixed :
                  [henergy (hfix fs orig) (row_sample [2; 0] [qc 1 1; qc 1 1])] in
   polyfixed_result orig fs child = mkRes [2; 0; 1] [[qc 1 1; qc 1 1; qc (-1) 1]] [qc 2 1].
 Proof. vm_compute; reflexivity. Qed.
+
+Example C07_ex_tile :
+  tile_rows 5 [[qc 1 1]; [qc 2 1]; [qc 3 1]] = [[qc 1 1]; [qc 2 1]; [qc 3 1]; [qc 1 1]; [qc 2 1]].
+Proof. vm_compute; reflexivity. Qed.
+
+Example C07_ex_structured :
+  structured [0; 1; 2] [(1, 0)] [0; 1] [(0, 1)] = true /\ structured [0; 1; 2] [(1, 0)] [0; 1; 2] [(0, 2)] = false.
+Proof. vm_compute. split; reflexivity. Qed.
